@@ -42,6 +42,9 @@ type Stored struct {
 	// Ext: spelling of the file's extension (default ".b2f"); the mailbox lists message files case-insensitively,
 	// so a file copied in by other software or through a case-folding file system may be called X.B2F
 	Ext string `json:"ext,omitempty"`
+	// ViaAPI (inbox only): the message was stored by the mailbox itself (ProcessInbound in an earlier run of the
+	// program) instead of being placed as a file; whatever the library leaves next to it is part of the pre-state
+	ViaAPI bool `json:"via_api,omitempty"`
 }
 
 func (s Stored) ext() string {
@@ -468,6 +471,7 @@ func clip(b []byte) []byte {
 
 type stats struct {
 	states, mid, inWrite int
+	viaAPI               int // pre-stored inbox messages that were stored by the library itself
 	continued            int // crash states on which the continuation phase (retry + follow-up operations) ran
 	events, mutating     int
 	bigWrites            int
@@ -531,7 +535,22 @@ func run(c Case) (sig, msg string, st stats, herr error) {
 			}
 		}
 		for _, s := range c.Stored {
-			if err := os.WriteFile(filepath.Join(root, s.Folder, s.Msg.MID+s.ext()), s.Msg.Bytes(), 0o644); err != nil {
+			path := filepath.Join(root, s.Folder, s.Msg.MID+s.ext())
+			if s.ViaAPI && s.Folder == "in" && s.Ext == "" {
+				m := new(fbb.Message)
+				if err := m.ReadFrom(bytes.NewReader(s.Msg.Bytes())); err != nil {
+					return "", "", st, problem("stored message does not parse: %v", err)
+				}
+				if err := mailbox.NewDirHandler(root, false).ProcessInbound(m); err != nil {
+					return "", "", st, problem("storing the pre-state through ProcessInbound: %v", err)
+				}
+				if b, err := os.ReadFile(path); err != nil || !bytes.Equal(b, s.Msg.Bytes()) {
+					return "", "", st, problem("pre-state stored through ProcessInbound differs from the generated message (err=%v)", err)
+				}
+				st.viaAPI++
+				continue
+			}
+			if err := os.WriteFile(path, s.Msg.Bytes(), 0o644); err != nil {
 				return "", "", st, problem("%v", err)
 			}
 		}
@@ -804,6 +823,9 @@ func genCase(t *rapid.T) Case {
 				m.Extra = append(m.Extra, [2]string{"X-Filepath", "/home/op/.wl2k/mailbox/N0CALL/" + f + "/" + m.MID + ".b2f"})
 			}
 			st := Stored{Folder: f, Msg: m}
+			if f == "in" && len(m.Extra) == 1 && m.Extra[0][0] == "X-Unread" && rapid.Bool().Draw(t, "via_api") {
+				st.ViaAPI = true // stored by ProcessInbound (which flags it unread)
+			}
 			if f != "out" && rapid.IntRange(0, 5).Draw(t, "ext_case") == 0 {
 				st.Ext = rapid.SampledFrom([]string{".B2F", ".B2f"}).Draw(t, "ext")
 			}
@@ -868,6 +890,7 @@ func account(c Case, st stats) {
 	harness.Label("case", "case:"+c.Op)
 	harness.LabelN("states:"+c.Op, st.states)
 	harness.LabelN("mid_write", st.inWrite)
+	harness.LabelN("pre-state:inbox-messages-stored-by-the-library-itself", st.viaAPI)
 	harness.LabelN("states-with-continuation-phase(retry+flag rewrites)", st.continued)
 	harness.LabelN("between_first_and_last_call", st.mid)
 	harness.LabelN("tree-changing calls", st.mutating)
